@@ -43,13 +43,13 @@ type sched struct {
 	cancel   *ssa.Function
 	// the scheduling loop (outer) and the per-stage loop (inner) of Schedule
 	outer, inner *an.Loop
-	launch       *ssa.Go       // the go statement that starts a stage
-	launchFn     *ssa.Function // function containing it
-	loopFn       *ssa.Function // function containing the per-stage loop (launchFn or a synchronous caller of it)
-	body         *ssa.Function // function run by the goroutine
-	bodyStage    ssa.Value     // the stage inside body (parameter or free variable)
+	launch       *ssa.Go               // the go statement that starts a stage
+	launchFn     *ssa.Function         // function containing it
+	loopFn       *ssa.Function         // function containing the per-stage loop (launchFn or a synchronous caller of it)
+	body         *ssa.Function         // function run by the goroutine
+	bodyStage    ssa.Value             // the stage inside body (parameter or free variable)
 	runnerCalls  []ssa.CallInstruction // calls in body that synchronously reach Runner.Run
-	runStage     *ssa.Function // function invoking Runner.Run
+	runStage     *ssa.Function         // function invoking Runner.Run
 	gate         *ssa.Function
 	gateLoop     *an.Loop
 	gateCall     *ssa.Call // call of gate in launchFn
